@@ -17,8 +17,21 @@
 
    The same Go code serves both runs: an error site either returns at once or, when the handler
    swallowed the error (lenience), carries on.  The model follows the carry-on control flow and
-   remembers the first error; the strict run is the same computation cut at the first error.  *)
-From Coq Require Import List ZArith NArith Bool String.
+   collects the errors in order; the strict run is the same computation cut at the first error.
+
+   The model is that of the code after the repairs 307ffab4 (a lenient option that reports an error is
+   undone: the options message is copied before each option), bb1a10d1 (special float words inside
+   message literals in any letter case), 36246e7a (an extension of another message inside a message
+   literal is an error, not a panic) and f7db43f0 (a field without presence set by an option statement
+   counts as set even when it holds its zero value).  What the code did before is kept at the end of
+   this file as the *_old definitions, for the historical lemmas.
+
+   How f7db43f0 is mirrored: the Go code records the paths of the fields without presence that option
+   statements (outside message literals) have set, because Has is false for a zero value.  In the model
+   a message literal hands its message on without the zero-valued fields without presence (on_wire:
+   in a dynamic message such an entry cannot be told from an absent one by Has, Get, Range or the
+   wire form), so outside literals the recorded paths are exactly the entries that are present.  *)
+From Coq Require Import List ZArith NArith Bool String Ascii.
 Import ListNotations.
 Open Scope Z_scope.
 
@@ -109,6 +122,25 @@ Definition max_int64 := 9223372036854775807.
 
 Definition str_in (s : string) (l : list string) : bool := existsb (String.eqb s) l.
 
+(* strings.ToLower on ASCII *)
+Definition lower_ascii (a : ascii) : ascii :=
+  let n := N_of_ascii a in
+  if (N.leb 65 n && N.leb n 90)%bool then ascii_of_N (n + 32) else a.
+Fixpoint lower (s : string) : string :=
+  match s with
+  | EmptyString => EmptyString
+  | String a r => String (lower_ascii a) (lower r)
+  end.
+(* specialFloatWord: ci = the reading of text format (any letter case, and infinity) applies inside
+   message literals; the code has ci = true *)
+Definition float_word (ci inlit : bool) (id : string) : option fl :=
+  if ci && inlit then
+    (let w := lower id in
+     if String.eqb w "inf" || String.eqb w "infinity" then Some (FInf false)
+     else if String.eqb w "nan" then Some FNaN else None)
+  else
+    (if String.eqb id "inf" then Some (FInf false) else if String.eqb id "nan" then Some FNaN else None).
+
 Definition scalar_field_value (k : kind) (v : oval) (inlit : bool) : res sval :=
   match k with
   | KBool =>
@@ -151,9 +183,7 @@ Definition scalar_field_value (k : kind) (v : oval) (inlit : bool) : res sval :=
     end
   | KDouble =>
     match v with
-    | OIdent id =>
-      if String.eqb id "inf" then Ok (SFloat (FInf false))
-      else if String.eqb id "nan" then Ok (SFloat FNaN) else Err EType
+    | OIdent id => match float_word true inlit id with Some f => Ok (SFloat f) | None => Err EType end
     | OFloat d => Ok (SFloat (fl_norm d))
     | OInt i => Ok (SFloat (to_f64 i 0))
     | OUint u => Ok (SFloat (to_f64 u 0))
@@ -161,9 +191,7 @@ Definition scalar_field_value (k : kind) (v : oval) (inlit : bool) : res sval :=
     end
   | KFloat =>
     match v with
-    | OIdent id =>
-      if String.eqb id "inf" then Ok (SFloat (FInf false))
-      else if String.eqb id "nan" then Ok (SFloat FNaN) else Err EType
+    | OIdent id => match float_word true inlit id with Some f => Ok (SFloat f) | None => Err EType end
     | OFloat d => Ok (SFloat (fl_to_f32 d))
     | OInt i => Ok (SFloat (to_f32 i 0))
     | OUint u => Ok (SFloat (to_f32 u 0))
@@ -220,6 +248,17 @@ Definition has (f : field) (m : mval) : bool :=
   | None => false
   | Some v => if fimplicit f then negb (is_zero_val v) else true
   end.
+(* what of a message is on the wire: not the fields without presence that hold the zero value *)
+Definition implicit_zero (fields : list field) (n : N) (v : val) : bool :=
+  match find (fun f => N.eqb (fnum f) n) fields with
+  | Some f => fimplicit f && is_zero_val v
+  | None => false
+  end.
+Definition on_wire (fields : list field) (m : mval) : mval :=
+  filter (fun p => negb (implicit_zero fields (fst p) (snd p))) m.
+(* the already-set test of setOptionField: inside a message literal Has; outside, Has or recorded as set *)
+Definition is_set (inlit : bool) (f : field) (m : mval) : bool :=
+  if inlit then has f m else present (fnum f) m.
 Definition mappend (n : N) (v : val) (m : mval) : mval :=
   match mget n m with
   | Some (VL es) => mset n (VL (es ++ [v])) m
@@ -285,39 +324,34 @@ Definition list_loop (fvf : field -> oval -> option val * errs) (fld : field)
     end.
 
 (* setOptionField, parameterised by the evaluator of one value (fieldValue).
-   fields = the fields of the message msg belongs to; foreign = fld is an extension of another
-   message (every reflective access to msg through it panics in dynamicpb).
+   fields = the fields of the message msg belongs to; inlit = insideMsgLiteral.
    Result: the message after the call and the errors reported during it. *)
 Definition set_option_field_with (fvf : field -> oval -> option val * errs)
-    (fields : list field) (foreign : bool) (msg : mval) (fld : field) (v : oval) : mval * errs :=
+    (fields : list field) (inlit : bool) (msg : mval) (fld : field) (v : oval) : mval * errs :=
   match v with
   | OList sl =>
     if negb (frep fld) then (msg, [EArrayNonRepeated])
-    else if foreign then (msg, [EPanic])
     else list_loop fvf fld sl msg []
   | _ =>
-    if foreign && (frep fld || (is_kmsg (fkind fld) && is_omsg v)) then (msg, [EPanic])
-    else
     let '(ov, e) := fvf fld v in
     match ov with
     | None => (msg, e)
     | Some x =>
-      if foreign then (msg, e ++ [EPanic])
-      else if oneof_conflict fields fld msg then (msg, e ++ [EOneof])
+      if oneof_conflict fields fld msg then (msg, e ++ [EOneof])
       else if frep fld then (mappend (fnum fld) x msg, e)
-      else if has fld msg then (msg, e ++ [EAlreadySet])
+      else if is_set inlit fld msg then (msg, e ++ [EAlreadySet])
       else (mset (fnum fld) x msg, e)
     end
   end.
 
-(* field lookup inside a message literal: the field and whether it is foreign to message md *)
-Definition lit_field (md : nat) (n : lname) : res (field * bool) :=
+(* field lookup inside a message literal *)
+Definition lit_field (md : nat) (n : lname) : res field :=
   match n with
-  | LField s => match field_by_name (msg_fields sch md) s with Some f => Ok (f, false) | None => Err ELitNoField end
+  | LField s => match field_by_name (msg_fields sch md) s with Some f => Ok f | None => Err ELitNoField end
   | LExt s =>
     match ext_by_name (sexts sch) s with
     | None => Err ELitNoField
-    | Some x => Ok (xfield x, negb (Nat.eqb (xextendee x) md))
+    | Some x => if Nat.eqb (xextendee x) md then Ok (xfield x) else Err EWrongExtendee
     end
   end.
 
@@ -327,13 +361,13 @@ Definition lit_loop (fv : field -> oval -> option val * errs) (md : nat)
   : list (lname * oval) -> mval -> bool -> errs -> option val * errs :=
   fix lit (fs : list (lname * oval)) (msg : mval) (had : bool) (flag : errs) {struct fs} : option val * errs :=
     match fs with
-    | [] => if had then (None, flag) else (Some (VM msg), flag)
+    | [] => if had then (None, flag) else (Some (VM (on_wire (msg_fields sch md) msg)), flag)
     | (nm, fv1) :: r =>
       match lit_field md nm with
       | Err x => lit r msg true (flag ++ [x])
-      | Ok (ffld, foreign) =>
+      | Ok ffld =>
         let usage := check_field_usage tt ffld in
-        let '(msg', e) := set_option_field_with fv (msg_fields sch md) foreign msg ffld fv1 in
+        let '(msg', e) := set_option_field_with fv (msg_fields sch md) true msg ffld fv1 in
         lit r msg' had (flag ++ usage ++ e)
       end
     end.
@@ -365,7 +399,7 @@ Fixpoint field_value (fld : field) (v : oval) (inlit : bool) {struct v} : option
 
 Definition set_option_field (fields : list field) (msg : mval) (fld : field) (v : oval) (inlit : bool)
   : mval * errs :=
-  set_option_field_with (fun f x => field_value f x inlit) fields false msg fld v.
+  set_option_field_with (fun f x => field_value f x inlit) fields inlit msg fld v.
 
 (* one part of an option name, looked up in message md *)
 Definition lookup_part (md : nat) (nm : npart) : res field :=
@@ -412,8 +446,6 @@ Fixpoint interpret_field (md : nat) (msg : mval) (name : list npart) (v : oval) 
 
 (* ------------------------------------------------------------------ interpreter.interpretOptions *)
 Definition is_custom (st : stmt) : bool := match sname st with PExt _ :: _ => true | _ => false end.
-Definition has_panic (e : errs) : bool := existsb (fun x => match x with EPanic => true | _ => false end) e.
-
 (* one pass (customOpts = custom) with the aborting handler: the message and the remain list *)
 Fixpoint pass_strict (custom : bool) (T : nat) (msg : mval) (uo : list stmt) : res (mval * list stmt) :=
   match uo with
@@ -431,26 +463,21 @@ Fixpoint pass_strict (custom : bool) (T : nat) (msg : mval) (uo : list stmt) : r
       end
   end.
 
-Inductive lres := LOk (m : mval) (remain : list stmt) | LPanic.
-
-(* one pass in lenient mode *)
+(* one pass in lenient mode: the message is copied before each option and the copy is taken back when the
+   option reported an error.  Result: the message, the remain list and (a ghost) the options that were
+   interpreted, in the order of the pass. *)
+Definition lres := (mval * list stmt * list stmt)%type.
 Fixpoint pass_lenient (custom : bool) (T : nat) (msg : mval) (uo : list stmt) : lres :=
   match uo with
-  | [] => LOk msg []
+  | [] => (msg, [], [])
   | st :: r =>
     if negb (Bool.eqb (is_custom st) custom) then
-      match pass_lenient custom T msg r with
-      | LOk m' rem => LOk m' (st :: rem)
-      | LPanic => LPanic
-      end
+      let '(m', rem, done) := pass_lenient custom T msg r in (m', st :: rem, done)
     else
-      let '(m1, e) := interpret_field T msg (sname st) (svalue st) in
-      if has_panic e then LPanic
-      else
-        match pass_lenient custom T m1 r with
-        | LOk m' rem => LOk m' (match e with _ :: _ => st :: rem | [] => rem end)
-        | LPanic => LPanic
-        end
+      match interpret_field T msg (sname st) (svalue st) with
+      | (m1, []) => let '(m', rem, done) := pass_lenient custom T m1 r in (m', rem, st :: done)
+      | (_, _ :: _) => let '(m', rem, done) := pass_lenient custom T msg r in (m', st :: rem, done)
+      end
   end.
 
 (* interpretOptions (the package-level function) on one element: first the non-custom options,
@@ -461,27 +488,40 @@ Definition interpret_strict (T : nat) (m0 : mval) (stmts : list stmt) : res (mva
   | Ok (m1, r1) => pass_strict true T m1 r1
   end.
 Definition interpret_lenient (T : nat) (m0 : mval) (stmts : list stmt) : lres :=
-  match pass_lenient false T m0 stmts with
-  | LPanic => LPanic
-  | LOk m1 r1 => pass_lenient true T m1 r1
+  let '(m1, r1, d1) := pass_lenient false T m0 stmts in
+  let '(m2, r2, d2) := pass_lenient true T m1 r1 in
+  (m2, r2, d1 ++ d2).
+
+(* applying statements one after the other, every one without error *)
+Fixpoint apply_all (T : nat) (m : mval) (sts : list stmt) : option mval :=
+  match sts with
+  | [] => Some m
+  | st :: r =>
+    match interpret_field T m (sname st) (svalue st) with
+    | (m1, []) => apply_all T m1 r
+    | (_, _ :: _) => None
+    end
   end.
 End Interp.
 
 (* Reference for the remainder of a lenient run: ONE walk over the statements in source order.  A statement
    is looked at with the message of its own pass (ma: the pass over non-custom options, mb: the pass over
-   custom options) and is kept exactly when its own interpretation reported an error. *)
+   custom options); it is kept exactly when its own interpretation reported an error, and then the message
+   stays as it was. *)
 Fixpoint ref_walk (sch : schema) (tt : N) (T : nat) (ma mb : mval) (sts : list stmt) : mval * mval * list stmt :=
   match sts with
   | [] => (ma, mb, [])
   | st :: r =>
     if is_custom st then
-      let '(mb', e) := interpret_field sch tt T mb (sname st) (svalue st) in
-      let '(ma2, mb2, rem) := ref_walk sch tt T ma mb' r in
-      (ma2, mb2, match e with [] => rem | _ :: _ => st :: rem end)
+      match interpret_field sch tt T mb (sname st) (svalue st) with
+      | (mb', []) => ref_walk sch tt T ma mb' r
+      | (_, _ :: _) => let '(ma2, mb2, rem) := ref_walk sch tt T ma mb r in (ma2, mb2, st :: rem)
+      end
     else
-      let '(ma', e) := interpret_field sch tt T ma (sname st) (svalue st) in
-      let '(ma2, mb2, rem) := ref_walk sch tt T ma' mb r in
-      (ma2, mb2, match e with [] => rem | _ :: _ => st :: rem end)
+      match interpret_field sch tt T ma (sname st) (svalue st) with
+      | (ma', []) => ref_walk sch tt T ma' mb r
+      | (_, _ :: _) => let '(ma2, mb2, rem) := ref_walk sch tt T ma mb r in (ma2, mb2, st :: rem)
+      end
   end.
 
 (* guards under which a failing statement leaves the message as it was *)
@@ -676,15 +716,13 @@ Fixpoint remain_matches (stmts : list stmt) (idx : list nat) (rem : list stmt) :
 Definition strict_matches (sch : schema) (T : nat) (stmts : list stmt) (r : res (mval * list stmt)) (o : obs) : bool :=
   match r, o with
   | Err EUnmodelled, _ => true
-  | Err EPanic, ObsPanic => true
   | Err e, ObsErr e' => err_eqb e e'
   | Ok (m, rem), ObsOk tree idx => mval_eqb (wire sch T m) tree && remain_matches stmts idx rem
   | _, _ => false
   end.
 Definition lenient_matches (sch : schema) (T : nat) (stmts : list stmt) (r : lres) (o : obs) : bool :=
   match r, o with
-  | LPanic, ObsPanic => true
-  | LOk m rem, ObsOk tree idx => mval_eqb (wire sch T m) tree && remain_matches stmts idx rem
+  | (m, rem, _), ObsOk tree idx => mval_eqb (wire sch T m) tree && remain_matches stmts idx rem
   | _, _ => false
   end.
 
@@ -716,63 +754,24 @@ Definition stmt_ext_free (st : stmt) : bool := forallb npart_is_field (sname st)
 (* every non-custom statement is free of extensions (custom ones start with one by definition) *)
 Definition noncustom_ext_free (sts : list stmt) : bool := forallb (fun st => is_custom st || stmt_ext_free st) sts.
 
-(* ------------------------------------------------------------------ the repaired lenient run *)
-(* Proposed repair of interpreter.interpretOptions: in lenient mode the message is copied before each option
-   and the copy is taken back when the option reported an error.  Besides the message and the remainder the
-   model returns (as a ghost) the options that were interpreted, in the order of the pass. *)
-Fixpoint pass_lenient_fx (sch : schema) (tt : N) (custom : bool) (T : nat) (msg : mval) (uo : list stmt)
-  : option (mval * list stmt * list stmt) :=
+(* ------------------------------------------------------------------ the code before the repairs (historical) *)
+(* before 307ffab4: a lenient option that reported an error was kept uninterpreted and whatever it had done to
+   the options message stayed *)
+Fixpoint pass_lenient_old (sch : schema) (tt : N) (custom : bool) (T : nat) (msg : mval) (uo : list stmt)
+  : mval * list stmt :=
   match uo with
-  | [] => Some (msg, [], [])
+  | [] => (msg, [])
   | st :: r =>
     if negb (Bool.eqb (is_custom st) custom) then
-      match pass_lenient_fx sch tt custom T msg r with
-      | Some (m', rem, done) => Some (m', st :: rem, done)
-      | None => None
-      end
+      let '(m', rem) := pass_lenient_old sch tt custom T msg r in (m', st :: rem)
     else
       let '(m1, e) := interpret_field sch tt T msg (sname st) (svalue st) in
-      if has_panic e then None
-      else
-        match e with
-        | [] =>
-          match pass_lenient_fx sch tt custom T m1 r with
-          | Some (m', rem, done) => Some (m', rem, st :: done)
-          | None => None
-          end
-        | _ :: _ =>
-          match pass_lenient_fx sch tt custom T msg r with
-          | Some (m', rem, done) => Some (m', st :: rem, done)
-          | None => None
-          end
-        end
+      let '(m', rem) := pass_lenient_old sch tt custom T m1 r in
+      (m', match e with _ :: _ => st :: rem | [] => rem end)
   end.
-Definition interpret_lenient_fx (sch : schema) (tt : N) (T : nat) (m0 : mval) (stmts : list stmt)
-  : option (mval * list stmt * list stmt) :=
-  match pass_lenient_fx sch tt false T m0 stmts with
-  | None => None
-  | Some (m1, r1, d1) =>
-    match pass_lenient_fx sch tt true T m1 r1 with
-    | None => None
-    | Some (m2, r2, d2) => Some (m2, r2, d1 ++ d2)
-    end
-  end.
-Definition lres_of_fx (r : option (mval * list stmt * list stmt)) : lres :=
-  match r with Some (m, rem, _) => LOk m rem | None => LPanic end.
-(* applying statements one after the other, every one without error *)
-Fixpoint apply_all (sch : schema) (tt : N) (T : nat) (m : mval) (sts : list stmt) : option mval :=
-  match sts with
-  | [] => Some m
-  | st :: r =>
-    match interpret_field sch tt T m (sname st) (svalue st) with
-    | (m1, []) => apply_all sch tt T m1 r
-    | (_, _ :: _) => None
-    end
-  end.
-
-Definition opt_chk_lenient_fx (c : opt_case) : bool :=
-  match c with OC sch tg T stmts _ ol _ =>
-    lenient_matches sch T stmts (lres_of_fx (interpret_lenient_fx sch tg T [] stmts)) ol end.
-Definition opt_chk_unlinked_fx (c : opt_case) : bool :=
-  match c with OC sch tg T stmts _ _ ou =>
-    lenient_matches sch T stmts (lres_of_fx (interpret_lenient_fx (no_exts sch) tg T [] stmts)) ou end.
+Definition interpret_lenient_old (sch : schema) (tt : N) (T : nat) (m0 : mval) (stmts : list stmt) : mval * list stmt :=
+  let '(m1, r1) := pass_lenient_old sch tt false T m0 stmts in pass_lenient_old sch tt true T m1 r1.
+(* before bb1a10d1: scalarFieldValue compared the identifier with inf and nan as written *)
+Definition float_ident_old (id : string) : option fl := float_word false true id.
+(* before f7db43f0: the already-set test of setOptionField was Has alone, also outside message literals *)
+Definition is_set_old (f : field) (m : mval) : bool := has f m.
